@@ -143,6 +143,10 @@ def ensure_makefile():
 def regenerate_all_gen():
     """Regenerate every coq/Gen/Gxx.v from /repo (used by setup)."""
     errs = {}
+    try:
+        regenerate_tr()
+    except Exception as e:  # noqa
+        errs['Tr'] = ''.join(traceback.format_exception_only(type(e), e))
     for f in sorted(glob.glob(os.path.join(ROOT, 'harness/vt/props/c[0-9][0-9].py'))):
         pid = os.path.basename(f)[:-3].upper()
         try:
@@ -150,6 +154,14 @@ def regenerate_all_gen():
         except Exception as e:  # noqa
             errs[pid] = ''.join(traceback.format_exception_only(type(e), e))
     return errs
+
+
+def regenerate_tr():
+    """coq/Gen/Tr.v: Gallina re-translated from the source text of selected note_seq functions (vt/pytr.py)."""
+    from vt import pytr
+    importlib.reload(pytr)
+    write_if_changed(os.path.join(COQ, 'Gen', 'Tr.v'), pytr.generate())
+    write_if_changed(os.path.join(COQ, 'Gen', 'TrF.v'), pytr.generate_float())
 
 
 def regenerate_gen(pid):
@@ -162,7 +174,10 @@ def regenerate_gen(pid):
 
 def make_target(target, jobs=16, timeout=3000):
     os.makedirs(BUILD, exist_ok=True)
-    lock = os.path.join(BUILD, '.make.%s.lock' % re.sub(r'\W', '_', target or 'all'))
+    tname = re.sub(r'\W', '_', target or 'all')
+    if len(tname) > 80:
+        tname = 'multi_' + hashlib.sha1(target.encode()).hexdigest()[:16]
+    lock = os.path.join(BUILD, '.make.%s.lock' % tname)
     # refresh the dependency file under one global lock so that concurrent checks never
     # rewrite .Makefile.d at the same time
     sh('flock %s timeout 300 make .Makefile.d 2>&1' % os.path.join(BUILD, '.makefile.lock'), cwd=COQ, timeout=400)
@@ -281,6 +296,12 @@ def check_proofs(pid, res, tier='quick'):
     cone = sorted(set(deps) | set(deps_of('Run/%s.v' % pid)))
     # every generated file in the cone (also those of the properties whose models are re-used) is regenerated
     # from /repo as it is now
+    if 'Gen/Tr.v' in cone or 'Gen/TrF.v' in cone:
+        try:
+            regenerate_tr()
+        except Exception as e:   # the translator is fail-closed: an unsupported construct is a broken tie
+            problems.append('Gen/Tr.v could not be re-translated from the source of /repo: %s' % (
+                ''.join(traceback.format_exception_only(type(e), e)).strip()))
     for d in cone:
         m = re.match(r'Gen/G(\d+)\.v$', d)
         if m and ('C' + m.group(1)) != pid:
@@ -289,10 +310,19 @@ def check_proofs(pid, res, tier='quick'):
             except Exception as e:
                 problems.append('Gen/G%s.v could not be regenerated from /repo: %s' % (
                     m.group(1), ''.join(traceback.format_exception_only(type(e), e)).strip()))
+    info['source_translated'] = [d for d in cone if d in ('Gen/Tr.v', 'Gen/TrF.v')]
     hits = scan_forbidden([d for d in cone if os.path.exists(os.path.join(COQ, d))])
     if hits:
         problems.append('forbidden vernacular in development: ' + ', '.join(hits[:10]))
-    rc, out = make_target(rel + 'o')
+    # build everything below the property file with make, then compile the property file itself ONCE with coqc,
+    # capturing its Print Assumptions output (it is the most expensive file of a float property)
+    below = [d + 'o' for d in deps if d != rel]
+    rc, out = make_target(' '.join(below)) if below else (0, '')
+    out2 = ''
+    if rc == 0:
+        rc, out2 = sh('flock %s timeout 1500 coqc -Q . %s -w -notation-overridden,-deprecated,-ambiguous-paths %s 2>&1' % (
+            os.path.join(BUILD, '.make.%s.lock' % re.sub(r'\W', '_', rel + 'o')), LOGICAL, rel), cwd=COQ, timeout=1600)
+        out = out + out2
     info['make_rc'] = rc
     lemma_files = [d for d in deps if d.startswith('Proofs/') or d.startswith('Props/')]
     all_lemmas = {d: count_lemmas(d) for d in lemma_files}
@@ -323,10 +353,7 @@ def check_proofs(pid, res, tier='quick'):
                 info['discharged'] += len(ls)
     else:
         info['discharged'] = info['obligations']
-        os.makedirs(os.path.join(BUILD, 'tmp'), exist_ok=True)
-        rc2, out2 = sh('timeout 900 coqc -Q . %s -w -notation-overridden,-deprecated,-ambiguous-paths '
-                       '-o %s %s' % (LOGICAL, os.path.join(BUILD, 'tmp', pid + '.vo'), rel),
-                       cwd=COQ, timeout=1000)
+        rc2 = 0
         thms = all_lemmas.get(rel, [])
         info['theorems'] = thms
         blocks = parse_assumptions(out2)
@@ -807,7 +834,11 @@ def write_evidence(pid, tier, seed, mod, res, violations, wall, cases, known=(),
             'extraction: ExtrOcamlBasic only (no Extract Constant / Extract Inductive of ours), OCaml 4.13.1, harness/ocaml/driver.ml',
             'constants/tables regenerated from /repo into coq/Gen/G%s.v by the property module' % pid[1:],
             'Python harness (generators, adapters, canonicalisation), CPython 3.12, protobuf, numpy, pretty_midi',
-        ] + list(getattr(mod, 'TRUSTED', [])),
+        ] + (['source-level tie: coq/%s re-translated on every run from the source text of note_seq functions by '
+              'harness/vt/pytr.py (fail-closed Python-AST -> Gallina translator; its reading of int(math.ceil(a/b)), of '
+              'element-wise event loops and of binary64 operators is trusted) and proved equal to the hand-written model '
+              'in coq/Proofs/TrEquiv*.v' % ' and coq/'.join(proof.get('source_translated'))]
+             if proof.get('source_translated') else []) + list(getattr(mod, 'TRUSTED', [])),
         'evaluations': int(res.get('evaluations', 0)),
         'model_evaluations': int(res.get('model_evaluations', 0)),
         'distinct_nontrivial': int(res.get('distinct_nontrivial', 0)),
